@@ -241,8 +241,7 @@ func buildPlan(m *Meta, tier string) plan {
 	for _, s := range m.Seeds {
 		for k := range s.Commits {
 			full := (s.Name == "S1" && k == 1) || (s.Name == "I2" && k == 1) // a later commit: two operations / a second version
-			root := (s.Name == "S1" || s.Name == "I2") && k == 0
-			if quick && !full && !root {
+			if quick && !full {
 				continue
 			}
 			if s.Name == "I3" && k == 2 {
@@ -264,16 +263,14 @@ func buildPlan(m *Meta, tier string) plan {
 						p.cases = append(p.cases, Case{M: mu, Sit: sit, Mode: "C"})
 					}
 				}
-				if !quick || full {
-					p.cases = append(p.cases, Case{M: mu, Sit: "local", Mode: "L"})
-				}
+				p.cases = append(p.cases, Case{M: mu, Sit: "local", Mode: "L"})
 			}
 		}
 	}
 	p.note = append(p.note, fmt.Sprintf("%d structural mutants (catalogue at every position of 6 seeds)", nCat),
 		fmt.Sprintf("%d single-point byte edits (7 edits at every offset) of: %s", nByte, strings.Join(blobs, ", ")))
 	if quick {
-		p.note = append(p.note, "quick tier: structural mutants in every local situation through MergeAll on the repository (E), as corrupt local data (L), through the cache in the diverged situation (C), through fetch + cache merge in the absent situation (P); byte edits in the absent situation (E) and, for the two non-root blobs, as corrupt local data (L)")
+		p.note = append(p.note, "quick tier: structural mutants in every local situation through MergeAll on the repository (E), as corrupt local data (L), through the cache in the diverged situation (C), through fetch + cache merge in the absent situation (P); byte edits of one operation pack (two operations) and one identity version in the absent situation (E) and as corrupt local data (L)")
 	} else {
 		p.note = append(p.note, "thorough tier: structural mutants in every situation and every mode; byte edits of every blob in every situation (E), absent and diverged through the cache (C), and as corrupt local data (L)")
 	}
